@@ -168,57 +168,85 @@ def chi2_pvalue_upper(chi2, dof):
     return 0.5 * math.erfc(z / math.sqrt(2.0))
 
 
+def _record_prog(job):
+    """records the events of ONE program (all arguments); returns (events, freq, violations)."""
+    gfj, seed_, prog, kinds, n_per, chi2, history = job
+    import zlib
+    R = Recorder(gfj, seed_ + 31 + zlib.crc32(prog.encode()) % 1000)
+    freq = {}
+    viol = []
+    for arg in spec_arg_space(R.B, prog):
+        try:
+            trs = []
+            if "simulate" in kinds:
+                for variant, n in (("eager", max(2, n_per // 10)), ("jit", max(2, n_per // 4)), ("vmap", n_per)):
+                    new = R.simulate(prog, arg, variant, n)
+                    trs += new[:3]
+                    if chi2:
+                        for e in R.events[-len(new):]:
+                            k = (prog, json.dumps(arg), json.dumps(e["leaves"]))
+                            freq.setdefault((prog, json.dumps(arg)), {}).setdefault(k, [0, e["score"]])[0] += 1
+                for tr in trs[:4]:
+                    R.assess(prog, arg, tr)
+            else:
+                trs = R.simulate(prog, arg, "jit", 2)
+                del R.events[-2:]
+            if "generate" in kinds:
+                for i in range(n_per):
+                    R.generate(prog, arg, "jit" if i % 2 else "eager")
+            args = spec_arg_space(R.B, prog)
+            if "update" in kinds:
+                for i in range(n_per):
+                    R.update(prog, arg, trs[i % len(trs)], R.rng.choice(args))
+            if "regenerate" in kinds:
+                sels = R.sels_for(prog)
+                for i in range(n_per):
+                    R.regenerate(prog, arg, trs[i % len(trs)], R.rng.choice(args), sels[i % len(sels)])
+            for h in range(history):
+                tr, a = trs[h % len(trs)], arg
+                for step in range(4):
+                    a2 = R.rng.choice(args)
+                    if R.rng.random() < 0.5:
+                        tr = R.update(prog, a, tr, a2)
+                    else:
+                        tr = R.regenerate(prog, a, tr, a2, R.rng.choice(R.sels_for(prog)))
+                    if R.rng.random() < 0.3:
+                        tr = jax.jit(lambda t: t)(tr)
+                    a = a2
+        except MachineryError:
+            raise
+        except Exception as ex:        # the code under test failed on a well-formed call: a definedness violation, not a harness failure
+            viol.append((f"raised|prog={prog}|arg={arg}|{type(ex).__name__}",
+                         f"a GFI call on program {prog} (arg {arg}) raised {type(ex).__name__}: {str(ex).splitlines()[0][:160] if str(ex) else ''}",
+                         {"program": prog, "arg": arg, "ops": sorted(kinds)}))
+    return R.events, freq, viol, {prog: len(R.B.leaf_paths(prog))}
+
+
+class _Events:
+    pass
+
+
 def run_b(chk, kinds, progs, n_per, *, chi2=False, history=0):
     """Record real-randomness events of the given op kinds for each program/argument, validate with TLC (GFITrace.tla)."""
     from . import gficheck
     gfj = gficheck.export_gf()
-    R = Recorder(gfj, chk.seed + 31)
-    freq = {}
-    for prog in progs:
-        for arg in spec_arg_space(R.B, prog):
-            try:
-                trs = []
-                if "simulate" in kinds:
-                    for variant, n in (("eager", max(2, n_per // 10)), ("jit", max(2, n_per // 4)), ("vmap", n_per)):
-                        new = R.simulate(prog, arg, variant, n)
-                        trs += new[:3]
-                        if chi2:
-                            for e in R.events[-len(new):]:
-                                k = (prog, json.dumps(arg), json.dumps(e["leaves"]))
-                                freq.setdefault((prog, json.dumps(arg)), {}).setdefault(k, [0, e["score"]])[0] += 1
-                    for tr in trs[:4]:
-                        R.assess(prog, arg, tr)
-                else:
-                    trs = R.simulate(prog, arg, "jit", 2)
-                    del R.events[-2:]
-                if "generate" in kinds:
-                    for i in range(n_per):
-                        R.generate(prog, arg, "jit" if i % 2 else "eager")
-                args = spec_arg_space(R.B, prog)
-                if "update" in kinds:
-                    for i in range(n_per):
-                        R.update(prog, arg, trs[i % len(trs)], R.rng.choice(args))
-                if "regenerate" in kinds:
-                    sels = R.sels_for(prog)
-                    for i in range(n_per):
-                        R.regenerate(prog, arg, trs[i % len(trs)], R.rng.choice(args), sels[i % len(sels)])
-                for h in range(history):
-                    tr, a = trs[h % len(trs)], arg
-                    for step in range(4):
-                        a2 = R.rng.choice(args)
-                        if R.rng.random() < 0.5:
-                            tr = R.update(prog, a, tr, a2)
-                        else:
-                            tr = R.regenerate(prog, a, tr, a2, R.rng.choice(R.sels_for(prog)))
-                        if R.rng.random() < 0.3:
-                            tr = jax.jit(lambda t: t)(tr)
-                        a = a2
-            except MachineryError:
-                raise
-            except Exception as ex:        # the code under test failed on a well-formed call: a definedness violation, not a harness failure
-                chk.violation(f"raised|prog={prog}|arg={arg}|{type(ex).__name__}",
-                              f"a GFI call on program {prog} (arg {arg}) raised {type(ex).__name__}: {str(ex).splitlines()[0][:160] if str(ex) else ''}",
-                              {"program": prog, "arg": arg, "ops": sorted(kinds)})
+    jobs = [(gfj, chk.seed, prog, set(kinds), n_per, chi2, history) for prog in progs]
+    if n_per * max(1, len(kinds)) + 4 * history >= 100:
+        # long recordings run in short-lived worker processes (one per program): a process that stages and evaluates many
+        # thousands of functions eagerly eventually dies inside LLVM's JIT ("Unable to allocate section memory")
+        import multiprocessing as mp
+        with mp.get_context("spawn").Pool(min(6, len(jobs)), maxtasksperchild=1) as pool:
+            outs = pool.map(_record_prog, jobs, chunksize=1)
+    else:
+        outs = [_record_prog(j) for j in jobs]
+    R = _Events()
+    R.events, freq, nleaves = [], {}, {}
+    for ev_, fr_, viol, nl in outs:
+        R.events += ev_
+        freq.update(fr_)
+        nleaves.update(nl)
+        for k, what, detail in viol:
+            chk.violation(k, what, detail)
     rej = validate(chk, R.events, chk.pid)
     chk.validated(len(R.events) - len(rej))
     for i, clauses in rej.items():
@@ -247,7 +275,7 @@ def run_b(chk, kinds, progs, n_per, *, chi2=False, history=0):
                 chi += (c - E) ** 2 / E
                 cov += E
             chi += max(0.0, N - cov)
-            dof = 3 ** len(R.B.leaf_paths(prog)) - 1
+            dof = 3 ** nleaves[prog] - 1
             pv = chi2_pvalue_upper(chi, dof)
             worst = min(worst, pv)
             if pv < 1e-9:
